@@ -119,7 +119,8 @@ class Chip(object):
 
     def vcpu_addr(self, p, field=None):
         st = self.machine.structs["vcpu"]
-        base = self.machine.vcpu_base + st.size * p
+        base = (self.machine.vcpu_base if getattr(self, "vcpu_base", None)
+                is None else self.vcpu_base) + st.size * p
         return base if field is None else base + st.fields[field].offset
 
     def sync_system_memory(self, router=True, p2p=True):
@@ -132,7 +133,8 @@ class Chip(object):
         self.sv_write("ip_addr", struct.unpack("<I", bytes(self.ip))[0])
         self.sv_write("num_cpus", self.num_cores)
         self.sv_write("iobuf_size", m.iobuf_size)
-        self.sv_write("vcpu_base", m.vcpu_base)
+        self.sv_write("vcpu_base", m.vcpu_base if getattr(
+            self, "vcpu_base", None) is None else self.vcpu_base)
         self.sv_write("sdram_sys", SDRAM_SYS)
         self.sv_write("sdram_base", SDRAM_BASE)
         self.sv_write("rtr_copy", self.rtr_copy_addr())
